@@ -28,6 +28,8 @@ pub struct P {
     pub submitters: usize,
     pub workers: usize,
     pub grouping: Grouping,
+    /// index of a batch that is created and submitted without any write
+    pub empty: Option<usize>,
 }
 
 fn permutations(n: usize) -> Vec<Vec<usize>> {
@@ -78,6 +80,10 @@ pub fn scenario(p: P) -> Arc<dyn Fn() + Send + Sync> {
         shuttle::future::block_on(async {
             for i in 0..p.batches {
                 let mut b = rig.new_batch();
+                if p.empty == Some(i) {
+                    batches.push(Some(b));
+                    continue;
+                }
                 rig.single.insert(0, VA(i as u64 + 1), &mut b).await;
                 rig.single.insert(i as u8 + 1, VA(100 + i as u64), &mut b).await;
                 rig.set.insert(0, i as u16, &mut b).await;
@@ -123,7 +129,9 @@ pub fn scenario(p: P) -> Arc<dyn Fn() + Send + Sync> {
         let s = st.lock().unwrap();
         let log: Vec<Vec<Op>> = s.log.clone();
         drop(s);
-        let expected: Vec<Vec<Op>> = (0..p.batches).map(expected_ops).collect();
+        let expected: Vec<Vec<Op>> = (0..p.batches)
+            .map(|i| if p.empty == Some(i) { Vec::new() } else { expected_ops(i) })
+            .collect();
         let batch_of = |op: &Op| -> Vec<usize> {
             expected
                 .iter()
@@ -203,15 +211,26 @@ pub fn params(thorough: bool) -> Vec<(P, usize)> {
                 continue;
             }
             v.push((
-                P { batches: n, order: order.clone(), submitters: 2, workers, grouping },
+                P { batches: n, order: order.clone(), submitters: 2, workers, grouping, empty: None },
                 if thorough { 3 } else { 2 },
             ));
         }
     }
+    // one of the batches carries no write at all
+    for (order, empty, workers, grouping) in [
+        (vec![0, 1, 2], 0usize, 1usize, Grouping::Never),
+        (vec![2, 1, 0], 1, 2, Grouping::UpTo(2)),
+        (vec![1, 0, 2], 1, 1, Grouping::Alternate),
+    ] {
+        v.push((
+            P { batches: 3, order, submitters: 2, workers, grouping, empty: Some(empty) },
+            if thorough { 3 } else { 2 },
+        ));
+    }
     if thorough {
         for order in [vec![3, 2, 1, 0], vec![1, 3, 0, 2], vec![2, 0, 3, 1]] {
             v.push((
-                P { batches: 4, order, submitters: 3, workers: 2, grouping: Grouping::UpTo(2) },
+                P { batches: 4, order, submitters: 3, workers: 2, grouping: Grouping::UpTo(2), empty: None },
                 2,
             ));
         }
@@ -221,7 +240,7 @@ pub fn params(thorough: bool) -> Vec<(P, usize)> {
 
 fn p_json(p: &P) -> Value {
     json!({"batches": p.batches, "submission_order": p.order,
-        "submitters": p.submitters, "serializer_workers": p.workers,
+        "submitters": p.submitters, "serializer_workers": p.workers, "empty_batch": p.empty,
         "grouping": format!("{:?}", p.grouping)})
 }
 
